@@ -50,11 +50,12 @@ Definition rpartc (c : ascii) (s : list ascii) : list ascii * list ascii * list 
 Fixpoint joinl (sep : list ascii) (l : list (list ascii)) : list ascii :=
   match l with [] => [] | [x] => x | x :: r => x ++ sep ++ joinl sep r end.
 
-Fixpoint mapM {A B} (f : A -> res B) (l : list A) : res (list B) :=
-  match l with
-  | [] => Ok []
-  | x :: r => bind (f x) (fun y => bind (mapM f r) (fun ys => Ok (y :: ys)))
-  end.
+Definition mapM {A B} (f : A -> res B) : list A -> res (list B) :=
+  fix go (l : list A) : res (list B) :=
+    match l with
+    | [] => Ok []
+    | x :: r => bind (f x) (fun y => bind (go r) (fun ys => Ok (y :: ys)))
+    end.
 
 (* ====================================================================================================== *)
 (* (b) the textual rewriter                                                                                *)
@@ -382,7 +383,8 @@ Fixpoint canon (r : rty) : cty :=
 (* ====================================================================================================== *)
 (* (a) _replace_UnionType_with_typing_Union                                                                *)
 (* ====================================================================================================== *)
-Inductive ntest := NIsUnionType | NIsList | NIsTuple | NIsDict | NInBuiltins | NIsClass.
+Inductive ntest := NIsUnionType | NIsList | NIsTuple | NIsDict | NInBuiltins | NIsClass
+                 | NIsEllipsis.   (* not in the source today: the arm a repair of the Tuple[X, ...] defect would add *)
 Inductive nact := AUnion | AList | ATuple | ADict | AId | ARaise (cls : string).
 
 Definition BUILTIN_CLASS_NAMES : list string :=
@@ -399,6 +401,7 @@ Definition ntest_holds (t : ntest) (r : rty) : bool :=
   | NIsDict, RCls n => String.eqb n "dict"
   | NInBuiltins, RCls n => str_in n BUILTIN_CLASS_NAMES
   | NIsClass, RCls _ => true
+  | NIsEllipsis, REllipsis => true
   | _, _ => false
   end.
 
@@ -561,3 +564,15 @@ Fixpoint rt (sp : spelling) (c : cty) : rty :=
       end
   | CBad => RCls "object"
   end.
+
+(* ====================================================================================================== *)
+(* the wrapper field list of one rendering: names and canonicalised FieldWrapper.type, or the set-up error  *)
+(* ====================================================================================================== *)
+Definition field_types (norm_table : list (ntest * nact)) (norm_else : nact) (env : list (string * string))
+           (kinds : list fkind) (sp : spelling) (postponed : bool) (l : list (string * fdecl))
+  : res (list (string * cty)) :=
+  mapM (fun kv =>
+          bind (resolve norm_table norm_else env postponed (fkind_eqb (f_kind (snd kv)) KInitVar)
+                        (render sp (f_ty (snd kv))))
+               (fun o => Ok (fst kv, canon o)))
+       (wrapper_fields kinds l).
